@@ -219,6 +219,15 @@ Section Vars.
 Variable cfg : config.
 Variable env : cenv.
 
+Lemma assign_vars_app l1 : forall l2 st,
+  assign_vars (l1 ++ l2) st = (do c1 <- assign_vars l1 st ;; do c2 <- assign_vars l2 st ;; COk (c1 ++ c2)).
+Proof.
+  induction l1 as [|[x t] l1 IH]; intros l2 st; cbn [app assign_vars].
+  - cbn [cbind]. destruct (assign_vars l2 st); reflexivity.
+  - destruct (index_of Z.eqb x (cs_locals st) 0); [|reflexivity]. rewrite IH.
+    destruct (assign_vars l1 st) as [c1|]; cbn [cbind]; [|reflexivity]. destruct (assign_vars l2 st); reflexivity.
+Qed.
+
 Lemma define_vars_app l1 : forall l2 st,
   define_vars cfg env (l1 ++ l2) st =
   (do '(st1, c1) <- define_vars cfg env l1 st ;; do '(st2, c2) <- define_vars cfg env l2 st1 ;; COk (st2, c1 ++ c2)).
@@ -306,7 +315,7 @@ Proof.
   - (* return *) right. intros f sto sto' He. destruct f; [discriminate|]. cbn [Sem.exec] in He.
     destruct res; [discriminate|]. destruct (eval _ _ _ _ _); discriminate.
   - (* assign *)
-    exfalso. destruct (negb (nrhs =? 1)); [discriminate|]. cbn [safe_stmt] in Hsafe. apply andb_prop in Hsafe as [_ Hl].
+    exfalso. destruct (negb (nrhs =? 1)); [discriminate|]. cbn [safe_stmt] in Hsafe. apply andb_prop in Hsafe as [Hsafe _]. apply andb_prop in Hsafe as [_ Hl].
     destruct tok; try discriminate.
     + cinv Hr. destruct a as [st1 c]. cinv Hrb. destruct a as [st2 cs]. inversion Hrbb; subst. clear Hrbb.
       destruct lhs as [|[x t] lhs]; [discriminate|]. cbn [rev] in Hrba. rewrite define_vars_app in Hrba.
@@ -316,9 +325,10 @@ Proof.
       cbn [cbind] in Hrbaba. inversion Hrbaba; subst. cbn [last_s] in Hu. rewrite !app_assoc, last_code_snoc in Hu.
       cbn [uncond_opt ikind] in Hu. apply is_uncond_sound in Hu. destruct (is_int t); exact Hu.
     + cinv Hr. destruct a as [st1 c]. cinv Hrb. inversion Hrbb; subst. clear Hrbb.
-      destruct lhs as [|[x t] [|]]; try discriminate. cbn [rev app assign_vars] in Hrba.
-      destruct (index_of Z.eqb x (cs_locals st') 0); [|discriminate]. cbn [cbind] in Hrba. inversion Hrba; subst.
-      cbn [last_s] in Hu. rewrite last_code_snoc in Hu. cbn [uncond_opt ikind] in Hu. apply is_uncond_sound in Hu. destruct (is_int t); exact Hu.
+      destruct lhs as [|[x t] lhs]; [discriminate|]. cbn [rev] in Hrba. rewrite assign_vars_app in Hrba.
+      cinv Hrba. cinv Hrbab. inversion Hrbabb; subst. cbn [assign_vars] in Hrbaba.
+      destruct (index_of Z.eqb x (cs_locals st') 0); [|discriminate]. cbn [cbind] in Hrbaba. inversion Hrbaba; subst.
+      cbn [last_s] in Hu. rewrite !app_assoc, last_code_snoc in Hu. cbn [uncond_opt ikind] in Hu. apply is_uncond_sound in Hu. destruct (is_int t); exact Hu.
   - exfalso. destruct (index_of Z.eqb x (cs_locals st) 0); [|discriminate]. inversion Hr; subst.
     cbn [last_s last_code rev app uncond_opt ikind] in Hu. apply is_uncond_sound in Hu. destruct inc; exact Hu.
   - (* if: its end label resets lastOp *)
@@ -396,9 +406,9 @@ Ltac sz := repeat first [rewrite size_app | progress cbn [size ikind width opera
 Lemma params_ok_set sto x v : params_ok sto -> is_param env x = false -> params_ok (store_set sto x v).
 Proof.
   intros [Ho Hi] Hx. unfold is_param in Hx. split.
-  - intros y i Hy. destruct (Ho _ _ Hy) as (w & Hs & Hr). exists w. split; [|exact Hr].
+  - intros y i Hnb Hy. destruct (Ho _ _ Hnb Hy) as (w & Hs & Hr). exists w. split; [|exact Hr].
     rewrite store_get_set_other; [exact Hs|]. intros ->. rewrite Hy in Hx. discriminate.
-  - intros y i Hyo Hy. destruct (Hi _ _ Hyo Hy) as (z & Hs & Hr). exists z. split; [|exact Hr].
+  - intros y i Hnb Hyo Hy. destruct (Hi _ _ Hnb Hyo Hy) as (z & Hs & Hr). exists z. split; [|exact Hr].
     rewrite store_get_set_other; [exact Hs|]. intros ->. rewrite Hyo, Hy in Hx. discriminate.
 Qed.
 
@@ -568,10 +578,93 @@ Proof.
       pose proof (Hg _ _ Hy) as Hv. destruct (store_get sto y) as [[| |z| | |]|]; rewrite ?H1, ?H2; exact Hv.
   - (* parameters are not assigned *)
     destruct Hpar as [Ho Hi]. split.
-    + intros y i Hy. destruct (Ho _ _ Hy) as (w & Hs0 & Hr). exists w. split; [|exact Hr].
+    + intros y i Hnb Hy. destruct (Ho _ _ Hnb Hy) as (w & Hs0 & Hr). exists w. split; [|exact Hr].
       rewrite Hout; [exact Hs0|]. intros t Hin'. destruct (Hfresh _ _ Hin') as [_ Hp]. unfold is_param in Hp. now rewrite Hy in Hp.
-    + intros y i Hyo Hy. destruct (Hi _ _ Hyo Hy) as (z & Hs0 & Hr). exists z. split; [|exact Hr].
+    + intros y i Hnb Hyo Hy. destruct (Hi _ _ Hnb Hyo Hy) as (z & Hs0 & Hr). exists z. split; [|exact Hr].
       rewrite Hout; [exact Hs0|]. intros t Hin'. destruct (Hfresh _ _ Hin') as [_ Hp]. unfold is_param in Hp. now rewrite Hyo, Hy in Hp.
+Qed.
+
+(* the machine side of a plain assignment to existing variables: every variable's slot receives its value *)
+Lemma assign_vm : forall lhs vs st cs, assign_vars (rev lhs) st = COk cs -> in_fl st ->
+  forall pc, code_at C pc cs ->
+  Forall2 (fun v xt => has_ty v (snd xt) = true) vs lhs -> NoDup (map fst lhs) ->
+  forall L IL, len L = max_locals cfg -> len IL = max_locals cfg ->
+  forall Y YI vl, exists L' IL',
+    star (S pc L IL (pushes_o vs Y) (pushes_i vs YI) vl) (S (pc + size cs) L' IL' Y YI vl) /\
+    len L' = max_locals cfg /\ len IL' = max_locals cfg /\
+    (forall x t v, In ((x, t), v) (combine lhs vs) -> exists i, index_of Z.eqb x FL 0 = Some i /\ slot_holds L' IL' i v) /\
+    (forall j, 0 <= j -> (forall x t, In (x, t) lhs -> index_of Z.eqb x FL 0 <> Some j) -> nthz L' j = nthz L j /\ nthz IL' j = nthz IL j) /\
+    (forall x t, In (x, t) lhs -> is_param env x = false).
+Proof.
+  induction lhs as [|[x t] lhs IH]; intros vs st cs Ha Hfl pc Hat Hty Hnd L IL HL HIL Y YI vl.
+  - inversion Hty; subst. cbn in Ha. inversion Ha; subst.
+    exists L, IL. split; [eapply star_eq; [apply star_refl|]; cbn [pushes_o pushes_i size]; apply S_eq; lia|].
+    split; [exact HL|split; [exact HIL|]]. split; [intros x t v []|]. split; [auto|intros x t []].
+  - inversion Hty as [|v ? vs' ? Hv Hvs]; subst. cbn [snd] in Hv.
+    cbn [map fst] in Hnd. inversion Hnd as [|? ? Hnotin Hnd']; subst.
+    cbn [rev] in Ha. rewrite assign_vars_app in Ha. cinv Ha. rename a into c1. cinv Hab. rename a into c2. inversion Habb; subst. clear Habb.
+    cbn [assign_vars] in Haba. destruct (index_of Z.eqb x (cs_locals st) 0) as [id|] eqn:Ex; [|discriminate].
+    cbn [cbind] in Haba. inversion Haba; subst. clear Haba.
+    assert (Hslotx : index_of Z.eqb x FL 0 = Some id) by (destruct Hfl as [l Hl]; rewrite Hl; now apply index_of_app).
+    rewrite pushes_o_cons, pushes_i_cons.
+    destruct (IH vs' _ _ Haa Hfl _ (code_at_app_l _ _ _ _ Hat) Hvs Hnd' L IL HL HIL (push_o v Y) (push_i v YI) vl)
+      as (L1 & IL1 & Hs1 & HL1 & HIL1 & Hset1 & Hun1 & Hfresh1).
+    apply code_at_app_r in Hat.
+    destruct HFL as [Hflmax Hdis]. pose proof (index_of_lt _ _ _ _ _ Hslotx) as Hidr.
+    destruct (set_local_step t id v L1 IL1 Hv ltac:(lia) HL1 HIL1 _ _ Y YI vl Hat) as (L2 & IL2 & Hs2 & HL2 & HIL2 & Hslot & Hrest).
+    assert (Hnotin' : forall t', ~ In (x, t') lhs).
+    { intros t' Hi. apply Hnotin. apply in_map_iff. exists (x, t'). auto. }
+    exists L2, IL2. split; [|split; [exact HL2|split; [exact HIL2|split; [|split]]]].
+    + eapply star_trans; [exact Hs1|]. eapply star_eq; [exact Hs2|]. apply S_eq. rewrite size_app. cbn [size ikind]. destruct (is_int t); cbn [pick width operand_of]; lia.
+    + intros y u w Hi. cbn [combine] in Hi. destruct Hi as [Hi|Hi].
+      * inversion Hi; subst. exists id. split; [exact Hslotx|]. unfold slot_holds. destruct w; exact Hslot.
+      * destruct (Hset1 _ _ _ Hi) as (i & Hyi & Hh). exists i. split; [exact Hyi|].
+        assert (Hne : i <> id).
+        { intros ->. apply in_combine_l in Hi. apply (Hnotin' u). replace x with y; [exact Hi|]. exact (index_of_inj _ _ _ _ _ Hyi Hslotx). }
+        pose proof (index_of_lt _ _ _ _ _ Hyi). destruct (Hrest i ltac:(lia) Hne) as [H1 H2].
+        unfold slot_holds in *. destruct w; rewrite ?H1, ?H2; exact Hh.
+    + intros j Hj Hnot. destruct (Hun1 j Hj) as [H1 H2]; [intros y u Hi; apply (Hnot y u); now right|].
+      assert (Hne : j <> id) by (intros ->; apply (Hnot x t); [now left|exact Hslotx]).
+      destruct (Hrest j Hj Hne) as [H3 H4]. split; congruence.
+    + intros y u [Hi|Hi]; [inversion Hi; subst; eapply Hdis; eauto|exact (Hfresh1 _ _ Hi)].
+Qed.
+
+Lemma assignN_ok : forall lhs vs st cs, assign_vars (rev lhs) st = COk cs -> in_fl st ->
+  forall pc, code_at C pc cs -> NoDup (map fst lhs) ->
+  forall sto sto', assign_all sto lhs vs = Some sto' -> length vs = length lhs ->
+  forall L IL, ginv sto L IL -> params_ok sto ->
+  forall Y YI vl, exists L' IL',
+    star (S pc L IL (pushes_o vs Y) (pushes_i vs YI) vl) (S (pc + size cs) L' IL' Y YI vl) /\
+    ginv sto' L' IL' /\ params_ok sto'.
+Proof.
+  intros lhs vs st cs Hd Hfl pc Hat Hnd sto sto' Ha Hlen L IL (HL & HIL & Hg) Hpar Y YI vl.
+  assert (Hty0 : Forall2 (fun v xt => has_ty v (snd xt) = true) vs lhs).
+  { clear - Ha. revert sto vs Ha. induction lhs as [|[x t] lhs IH]; intros sto vs Ha; destruct vs as [|v vs]; cbn [assign_all] in Ha; try discriminate; [constructor|].
+    destruct (has_ty v t) eqn:E; [|discriminate]. constructor; [exact E|eauto]. }
+  destruct (assign_vm lhs vs _ _ Hd Hfl _ Hat Hty0 Hnd L IL HL HIL Y YI vl) as (L' & IL' & Hs & HL' & HIL' & Hset & Hun & Hfresh).
+  destruct (assign_all_spec _ _ _ _ Ha Hnd) as (_ & Hin & Hout).
+  exists L', IL'. split; [exact Hs|]. split.
+  - split; [exact HL'|split; [exact HIL'|]]. intros y i Hy.
+    destruct (in_dec Z.eq_dec y (map fst lhs)) as [Hi|Hni].
+    + apply in_map_iff in Hi as ([y' u] & E & Hi). cbn [fst] in E. subst y'.
+      destruct (In_nth _ _ (y, u) Hi) as (n & Hn & Hnth).
+      assert (Hn' : (n < length vs)%nat) by lia.
+      set (w := nth n vs VNil).
+      assert (Hc : In ((y, u), w) (combine lhs vs)).
+      { replace ((y, u), w) with (nth n (combine lhs vs) ((y, u), VNil)); [apply nth_In; rewrite combine_length; lia|].
+        rewrite combine_nth by lia. subst w. now rewrite Hnth. }
+      rewrite (Hin _ _ _ Hc). destruct (Hset _ _ _ Hc) as (i' & Hy' & Hh). rewrite Hy in Hy'. inversion Hy'; subst i'.
+      unfold slot_holds in Hh. destruct w; exact Hh.
+    + assert (Hy2 : forall t, ~ In (y, t) lhs) by (intros t Hi; apply Hni; apply in_map_iff; exists (y, t); auto).
+      rewrite (Hout _ Hy2). pose proof (index_of_lt _ _ _ _ _ Hy).
+      destruct (Hun i ltac:(lia)) as [H1 H2].
+      { intros x t Hi Hx. apply (Hy2 t). replace y with x; [exact Hi|]. exact (index_of_inj _ _ _ _ _ Hx Hy). }
+      pose proof (Hg _ _ Hy) as Hv. destruct (store_get sto y) as [[| |z| | |]|]; rewrite ?H1, ?H2; exact Hv.
+  - destruct Hpar as [Ho Hi]. split.
+    + intros y i Hnb Hy. destruct (Ho _ _ Hnb Hy) as (w & Hs0 & Hr). exists w. split; [|exact Hr].
+      rewrite Hout; [exact Hs0|]. intros t Hin'. pose proof (Hfresh _ _ Hin') as Hp. unfold is_param in Hp. now rewrite Hy in Hp.
+    + intros y i Hnb Hyo Hy. destruct (Hi _ _ Hnb Hyo Hy) as (z & Hs0 & Hr). exists z. split; [|exact Hr].
+      rewrite Hout; [exact Hs0|]. intros t Hin'. pose proof (Hfresh _ _ Hin') as Hp. unfold is_param in Hp. now rewrite Hyo, Hy in Hp.
 Qed.
 
 Lemma assign1_ok x t v st cs : assign_vars [(x, t)] st = COk cs -> in_fl st ->
@@ -786,7 +879,7 @@ Lemma assign_ok f tok lhs nrhs rhs : forall st st' rs, rstmt_of cfg env (SAssign
   forall X XI vl, post pc k (gen cfg rs k) X XI o (S pc L IL X XI vl).
 Proof.
   intros st st' rs Hr Hfl Hpools Hsafe k pc Hat sto L IL Hinv Hpar o He X XI vl.
-  cbn [rstmt_of] in Hr. cbn [Sem.exec] in He. cbn [safe_stmt] in Hsafe. apply andb_prop in Hsafe as [Hsr Hshape].
+  cbn [rstmt_of] in Hr. cbn [Sem.exec] in He. cbn [safe_stmt] in Hsafe. apply andb_prop in Hsafe as [Hsr Hshape]. apply andb_prop in Hsr as [Hsr _].
   destruct (negb (nrhs =? 1)); [discriminate|]. einvas He vs.
   (* the right-hand side leaves its values on the stacks *)
   assert (Hrhs : forall st1 c, cexpr env rhs st = COk (st1, c) -> in_fl st1 -> pools_ok st1 ->
@@ -814,12 +907,12 @@ Proof.
     destruct (define_ok lhs vs _ _ _ Hrba Hfl _ Hat _ _ Ea Hlen _ _ Hinv Hpar (J ++ X) XI vl1) as (L' & IL' & Hs2 & Hinv' & Hpar').
     cbn [post]. exists J, L', IL', vl1. split; [|auto]. eapply star_trans; [exact Hs1|]. eapply star_eq; [exact Hs2|]. apply S_eq. rewrite size_app. lia.
   - (* = *)
-    destruct lhs as [|[x t] [|]]; try discriminate.
-    cinv Hr. destruct a as [st1 c]. cinv Hrb. inversion Hrbb; subst. clear Hrbb. cbn [gen rev app] in *.
+    apply nodup_names_NoDup in Hshape.
+    cinv Hr. destruct a as [st1 c]. cinv Hrb. inversion Hrbb; subst. clear Hrbb. cbn [gen] in *.
     destruct (Hrhs _ _ Hra Hfl Hpools _ (code_at_app_l _ _ _ _ Hat)) as (J & vl1 & Hs1 & Hlen).
     apply code_at_app_r in Hat.
-    destruct vs as [|v [|]]; try discriminate. cbn [assign_all] in Heb. destruct (has_ty v t) eqn:Hty; [|discriminate]. inversion Heb; subst. clear Heb.
-    destruct (assign1_ok x t v _ _ Hrba Hfl _ Hat Hty _ _ _ Hinv Hpar (J ++ X) XI vl1) as (L' & IL' & Hs2 & Hinv' & Hpar').
+    destruct (assign_all sto lhs vs) as [sto'|] eqn:Ea; [|discriminate]. inversion Heb; subst. clear Heb.
+    destruct (assignN_ok lhs vs _ _ Hrba Hfl _ Hat Hshape _ _ Ea Hlen _ _ Hinv Hpar (J ++ X) XI vl1) as (L' & IL' & Hs2 & Hinv' & Hpar').
     cbn [post]. exists J, L', IL', vl1. split; [|auto]. eapply star_trans; [exact Hs1|]. eapply star_eq; [exact Hs2|]. apply S_eq. rewrite size_app. lia.
 Qed.
 
